@@ -31,12 +31,25 @@ def opaque_free(w):
     return True
 
 
+AGAIN = "__second_call_with_empty_bindings__"
+
+
 def _observe(item):
     text, bind_w = item
-    bind = {n: celx.to_cel(celx.dec(v)) for n, v in bind_w}
+    again = any(n == AGAIN for n, _ in bind_w)
+    bind = {n: celx.to_cel(celx.dec(v)) for n, v in bind_w if n != AGAIN}
     out = {}
     for r in ("I", "C"):
-        out[r] = celx.outcome_abs(celx.run(text, bind, r, cache=False))
+        if not again:
+            out[r] = celx.outcome_abs(celx.run(text, bind, r, cache=False))
+            continue
+        # the same program object evaluated a second time, with NO bindings: the outcome reported is the second one
+        prog, fail = celx.program(text, r, cache=False)
+        if prog is None:
+            out[r] = celx.outcome_abs(fail)
+            continue
+        celx.guarded(lambda: prog.evaluate(dict(bind)))
+        out[r] = celx.outcome_abs(celx.guarded(lambda: prog.evaluate({})))
     return out
 
 
@@ -135,6 +148,10 @@ def run(ctx: Ctx) -> int:
     for _ in range(1200 if q else 30000):
         p = c04.rand_nested(rng, lv, rng.randint(2, 4))
         add("random", celx.render_ast(p), [("v", {"t": "int", "v": rng.randint(-2, 2)})])
+    # a sample of the programs that have bindings: evaluated once with them and then again, on the same program, without
+    withb = [(src, t, b) for src, t, b in texts if b]
+    for src, t, b in withb[:: max(1, len(withb) // (400 if q else 4000))]:
+        texts.append(("second-call:" + src, t, list(b) + [(AGAIN, {"t": "bool", "v": True})]))
     obs = pmap(_observe, [(t, [(n, celx.enc(v)) for n, v in b]) for _, t, b in texts])
     lines = [{"oi": wire(o["I"]), "oc": wire(o["C"])} for o in obs]
     both_exc = sum(1 for ln in lines if ln["oi"]["t"] == "exc" and ln["oc"]["t"] == "exc")
